@@ -72,6 +72,10 @@ CHECKS = {
          "Every function with up to 2 annotated parameters over 9 parameter types, 9 result types and every body with at most 1 construct of the inference alphabet that uses all parameters (thorough: 2 constructs with 1 parameter, 1 construct with up to 3 parameters), each with every subset of its annotations erased. Oracles: the emitted func signature equals the reference principal type (type parameters T0.. by first occurrence in the parameter list then the result, constraint any, types by the reference type printer); variants whose principal type equals the fully annotated one are emitted byte-identically (modulo name and temporaries); every variant compiles. Library signatures are read from the working tree's pkg/pkg_all.foi by an independent reader. A corpus adds 12-type-variable, compose/flip/ApplyL and chained shapes.",
          "Variants outside the documentation's inference promises are skipped and counted by rule (un-annotated match / field-access / string-match targets, && || not operands, arithmetic on undetermined types, types determined only through match arms, function parameters applied more than once, Sort/Distinct on undetermined element types, body-only type variables).",
          "DESIGN.md C02"),
+ "C03": ("complete enumeration of declaration shapes and foreign-call shapes (choice-tree explorer), each paired with a Go client / Go implementation generated from the documentation's naming scheme; compiled together with the emitted code and executed",
+         "Records (generic or not, 1..2 / 3 fields over a 12-entry type menu: scalars, []int, 2- and 3-tuples, int->string, ()->int, another record, another union, T, []T), unions (generic or not, 1..2 / 3 cases with a payload from the menu or none), top-level variables of every menu type and functions (0..2 / 3 parameters, unit parameter, unit result, generic), each with a Go client that uses only documented names and types (positional struct literals, explicitly typed field reads, New_U_C functions / package variables, type switch over U_C with .Value, Stringer text, direct calls) plus Folang producers/consumers; package_info signatures (arity 1..3, unit argument, unit result, 0..2 type parameters, package _ or a named package) x number of supplied arguments x 5 call forms against a Go implementation that prints position and value of every argument. stdout must equal the documentation model's prediction.",
+         "Foreign calls use literal, position-dependent arguments; external generic types (ext.Box<T>) are covered by C15 only.",
+         "DESIGN.md C03"),
 }
 NOT_APPLICABLE = []
 
